@@ -215,6 +215,16 @@ def run(ctx):
                         n_checks += 1
                         if realfuzz.canon(t.parameter_values[k]) != before:
                             done = True
+                            # ... and changed back: an empty dict is the documented way to clear a *_params dictionary
+                            try:
+                                t.update(**{k: {}})
+                                cleared = t.parameter_values[k] == {}
+                            except Exception as e:
+                                cleared = False
+                            n_checks += 1
+                            if not cleared:
+                                viol(f"{cn}/dict-not-cleared/{k}", f"{cn}: update({k}={{}}) after update({k}={v[2]!r}) leaves parameter_values[{k!r}] = {t.parameter_values[k]!r}",
+                                     {"class": cn, "pre": str(v[1]), "set": str(v[2]), "param": k})
                             break
                         continue
                     t = copy.deepcopy(obj)
